@@ -70,6 +70,12 @@ class C11(Prop):
         "NV.C11.sim_round",
         "NV.C11.sim_reload",
         "NV.C11.sim_tick",
+        "NV.C11.gen_rmMove_eq",
+        "NV.C11.applyMove_eq_erase",
+        "NV.C11.gen_queryReturns_eq",
+        "NV.C11.gen_reloadOrder_eq",
+        "NV.C11.gen_cloneOrder_eq",
+        "NV.C11.gen_search_eq",
         "NV.C11.gen_roundEntry_eq",
         "NV.C11.gen_roundExit_eq",
         "NV.C11.gen_roundSkip_eq",
